@@ -4,7 +4,9 @@ package main
 
 import (
 	"encoding/json"
+	"fmt"
 	"os"
+	"runtime"
 )
 
 func runRatingGrid(a *args) {
@@ -169,7 +171,91 @@ func runTrace1(a *args) {
 	col.write(a.Out)
 }
 
+// retrace: the events of -in (a JSON array of recorded events) are executed AGAIN, each alone, sequentially, on a
+// receiver rebuilt by Set from the logged value; the summary says for each whether the recorded outcome came out
+// again.  C14 uses it to tell a result that depends on the context (interleaving, history: its business) from a
+// deterministic deviation from the specification (the business of the property that pins that result).
+func runRetrace(a *args) {
+	b, err := os.ReadFile(a.In)
+	if err != nil {
+		fatal("%v", err)
+	}
+	var evs []event
+	if err := json.Unmarshal(b, &evs); err != nil {
+		fatal("bad retrace input: %v", err)
+	}
+	var tabs specTables
+	if err := json.Unmarshal([]byte(a.Aux), &tabs); err != nil {
+		fatal("retrace: -aux must carry the spec tables: %v", err)
+	}
+	r := newRecorder(a.Out+".trace", tabs)
+	col := newCollector("retrace", a.Prop)
+	same := make([]bool, len(evs))
+	eqI := func(x, y []int) bool { return fmt.Sprint(x) == fmt.Sprint(y) }
+	eqS := func(x, y []string) bool { return fmt.Sprint(x) == fmt.Sprint(y) }
+	for i, e := range evs {
+		v := versions[e.Ver]
+		if v == nil {
+			continue
+		}
+		rebuilt := true
+		mk := func() Obj {
+			o := v.Zero()
+			for j, m := range tabs.Order[e.Ver] {
+				if j < len(e.Before) {
+					if o.Set(m, e.Before[j]) != nil {
+						rebuilt = false
+					}
+				}
+			}
+			return o
+		}
+		// twice, the second time after a garbage collection (pools emptied) and an unrelated failing call
+		ok := true
+		for round := 0; round < 2 && ok; round++ {
+			if round == 1 {
+				runtime.GC()
+				runtime.GC()
+				safely(func() { v.Parse(poisonVec[e.Ver][0] + "/ZZ:Z") })
+			}
+			switch e.Op {
+			case "parse":
+				r.parse(0, e.Ver, string(bytesOf(e.B)))
+			case "set":
+				r.set(0, e.Ver, 1, mk(), string(bytesOf(e.A)), string(bytesOf(e.V)))
+			case "get":
+				r.get(0, e.Ver, 1, mk(), string(bytesOf(e.A)))
+			case "vector":
+				r.vector(0, e.Ver, 1, mk())
+			case "score":
+				r.score(0, e.Ver, 1, mk(), e.M)
+			case "nomen":
+				r.nomen(0, 1, mk())
+			case "rating":
+				var x float64
+				if _, err := fmtSscan(e.Raw, &x); err != nil {
+					ok = false
+					continue
+				}
+				r.rating(0, e.Ver, x)
+			default:
+				ok = false
+				continue
+			}
+			n := r.last
+			ok = rebuilt && n.OK == e.OK && n.Err.Kind == e.Err.Kind && eqI(n.Err.Abv, e.Err.Abv) && n.Val == e.Val && eqI(n.Out, e.Out) &&
+				n.Tenths == e.Tenths && n.R == e.R && eqS(n.After, e.After) && (n.Pan != "") == (e.Pan != "")
+		}
+		same[i] = ok
+		col.count("recorded events executed again alone", 1)
+	}
+	r.close()
+	col.s.Info["reproduced"] = same
+	col.write(a.Out)
+}
+
 func init() {
+	modes["retrace"] = runRetrace
 	modes["ratinggrid"] = runRatingGrid
 	modes["nomencases"] = runNomenCases
 	modes["trace1"] = runTrace1
